@@ -5059,7 +5059,7 @@ func updateMeshTopology(tx WriteTxn, idx uint64, node string, svc *structs.NodeS
 
 		var mapping *upstreamDownstream
 		if existing, ok := obj.(*upstreamDownstream); ok {
-			mapping := existing.DeepCopy()
+			mapping = existing.DeepCopy()
 			mapping.Refs[uid] = struct{}{}
 			mapping.ModifyIndex = idx
 
@@ -5085,14 +5085,38 @@ func updateMeshTopology(tx WriteTxn, idx uint64, node string, svc *structs.NodeS
 		inserted[upstream] = true
 	}
 
+	// Upstreams this instance no longer has: drop only this instance's reference, other
+	// proxy instances of the same downstream may still use the upstream.
+	uid := structs.UniqueID(node, svc.CompoundServiceID().String())
 	for u := range oldUpstreams {
-		if !inserted[u] {
-			if _, err := tx.DeleteAll(tableMeshTopology, indexID, u, downstream); err != nil {
+		if inserted[u] {
+			continue
+		}
+		obj, err := tx.First(tableMeshTopology, indexID, u, downstream)
+		if err != nil {
+			return fmt.Errorf("%q lookup failed: %v", tableMeshTopology, err)
+		}
+		m, ok := obj.(*upstreamDownstream)
+		if !ok {
+			continue
+		}
+		if _, ok := m.Refs[uid]; !ok {
+			continue
+		}
+		copy := m.DeepCopy()
+		delete(copy.Refs, uid)
+		if len(copy.Refs) == 0 {
+			if err := tx.Delete(tableMeshTopology, m); err != nil {
 				return fmt.Errorf("failed to truncate %s table: %v", tableMeshTopology, err)
 			}
-			if err := indexUpdateMaxTxn(tx, idx, tableMeshTopology); err != nil {
-				return fmt.Errorf("failed updating %s index: %v", tableMeshTopology, err)
+		} else {
+			copy.ModifyIndex = idx
+			if err := tx.Insert(tableMeshTopology, copy); err != nil {
+				return fmt.Errorf("failed inserting %s mapping: %s", tableMeshTopology, err)
 			}
+		}
+		if err := indexUpdateMaxTxn(tx, idx, tableMeshTopology); err != nil {
+			return fmt.Errorf("failed updating %s index: %v", tableMeshTopology, err)
 		}
 	}
 	return nil
